@@ -934,8 +934,8 @@ func stringParamIndex(fd *ast.FuncDecl, info *types.Info, pi int) int {
 // ---------------------------------------------------------------------------------
 // A6 record-after-alter, alter-only-if-changed;  C6 clamp / minimum agreement
 
-var ruleA6 = &Rule{
-	ID:    "A6",
+var ruleA6old = &Rule{
+	ID:    "A6old",
 	Floor: 14,
 	Doc: "retention: in every function that records an applied setting (calls putSetting): each ALTER Exec is inside the loop over the table list and its error check leaves the function; " +
 		"the putSetting call is outside that loop and reachable only past it; both the ALTERs and putSetting are dominated by the false edge of the comparison `recorded == desired`, where recorded comes from getSetting with the same (type, name) arguments as putSetting and desired is the value putSetting records; " +
@@ -1124,8 +1124,8 @@ func (c *Ctx) mentionsText(fi *FuncInfo, e ast.Expr, want string, depth int) boo
 	return hit
 }
 
-var ruleC6 = &Rule{
-	ID:    "C6",
+var ruleC6old = &Rule{
+	ID:    "C6old",
 	Floor: 6,
 	Doc:   "tier-move clamp: the TTL routine clamps each tier duration to its minimum parameter before use (`if x < min { x = min }` ahead of the interpolation), and every call site passes the day-sized minimum iff the insert-time expression is the `date` column (index tables), the minute-sized minimum otherwise (sample tables)",
 	Run: func(c *Ctx) []Obl {
@@ -1246,7 +1246,10 @@ func constInt(s string) (int64, bool) {
 	return v, err == nil
 }
 
-func init() { register(ruleA6, ruleC5, ruleC6, ruleJ1, ruleJ2) }
+func init() { register(ruleC5, ruleJ1, ruleJ2) }
+
+var _ = ruleA6old
+var _ = ruleC6old
 
 // ---------------------------------------------------------------------------------
 // C7 settings keys are not shared
